@@ -155,6 +155,17 @@ func implReplay(drv *lib.Driver, id *ids, sc Scenario, out *outcome, pre []*lib.
 			ans := "-"
 			if n := len(p.chain); n > 0 {
 				ans = lastAnswerFor(id, log, lastCommit, upTo, p.chain[n-1].num)
+				// several answers for the head's height since the last commit (the task's own request and a
+				// fetcher's): the task got one that made it stop
+				if cands := answersFor(id, log, lastCommit, upTo, p.chain[n-1].num); len(cands) > 1 {
+					for _, c := range cands {
+						if p.peek("iter "+c+" 1") == "" && p.err == "" {
+							ans = c
+							hits["impl:answer-chosen-among-several"]++
+							break
+						}
+					}
+				}
 			}
 			obs := p.ask("impl iter " + ans + " 1")
 			hits["impl:iter-break"]++
